@@ -19,6 +19,13 @@ def parseAct (t : String) : Option Act :=
   | 'f' :: ds => (String.ofList ds).toNat?.map .fire
   | _ => none
 
+def parseX (t : String) : Option XAct :=
+  match t with
+  | "P" => some .midStop
+  | "S1" => some (.midStart true)
+  | "S0" => some (.midStart false)
+  | _ => (parseAct t).map .base
+
 def showPc : Pc → String
   | .idle => "i" | .sent => "s" | .evald true => "D" | .evald false => "E" | .cleared => "c"
 
@@ -37,10 +44,10 @@ def proj (s : St) : String :=
 def runGroups (s : St) : List (List String) → List String → List String
   | [], acc => acc.reverse
   | g :: gs, acc =>
-    match g.mapM parseAct with
+    match g.mapM parseX with
     | none => ("bad-event" :: acc).reverse
     | some as =>
-      match run s as with
+      match runX s as with
       | none => ("disabled" :: acc).reverse
       | some s' => runGroups s' gs (proj s' :: acc)
 
